@@ -48,7 +48,13 @@ func tryReplay(verif, repo, prop string, r OblResult, replayPath string) bool {
 	testFile := strings.TrimSuffix(replayPath, ".replay") + "_replay_test.go"
 	os.WriteFile(testFile, buf.Bytes(), 0o644)
 	rel := strings.TrimPrefix(strings.TrimPrefix(c.Pkg, modulePrefix), "/")
-	ok, out := runOverlayTest(repo, rel, testFile, "TestVerifReplay")
+	var ok bool
+	var out string
+	if modText, isScratch := scratchMods[c.Pkg]; isScratch {
+		ok, out = runScratchModuleTest(verif, repo, prop, rel, testFile, "TestVerifReplay", modText)
+	} else {
+		ok, out = runOverlayTest(repo, rel, testFile, "TestVerifReplay")
+	}
 	appendFile(replayPath, fmt.Sprintf("---- replay ----\ninputs from the model: %v\ntest: %s\npackage: ./%s\nreproduced on the real code: %v\n%s\n", r.Observed, testFile, rel, ok, out))
 	return ok
 }
